@@ -93,22 +93,33 @@ def _desc(x):
     if hasattr(x, 'detach'):
         return dict(torch=str(x.dtype), shape=list(x.shape), values=np.asarray(x.detach().numpy()).reshape(-1)[:64].tolist().__repr__()[:600])
     if isinstance(x, np.ndarray):
-        return dict(dtype=str(x.dtype), shape=list(x.shape), contiguous=bool(x.flags.c_contiguous), values=repr(x.reshape(-1)[:64].tolist())[:600])
+        return dict(dtype=str(x.dtype), shape=list(x.shape), c_contiguous=bool(x.flags.c_contiguous), f_contiguous=bool(x.flags.f_contiguous), owns_data=bool(x.flags.owndata), values=repr(x.reshape(-1)[:64].tolist())[:600])
     return repr(x)[:200]
+
+
+def _tview(a):
+    """the same values as `a`, as the transposed view of a C-ordered array (Fortran-ordered, does not own its data)"""
+    a = np.asarray(a)
+    return np.ascontiguousarray(a.transpose(*range(a.ndim)[::-1])).transpose(*range(a.ndim)[::-1])
+
+
+LAYOUTS = (('F-order', lambda a: np.asfortranarray(a)), ('T-view', _tview))
 
 
 def checked(ctx, name, fn, *args):
     """call `fn(*args)` twice on the very same argument objects: no argument may be modified, both results must be identical"""
     before = [_snap(a) for a in args]
+    descs = [_desc(a) for a in args]          # taken before the call: values and memory layout of the objects actually passed
+    key = name.split('[')[0]                  # stable key per function; the variant (layout / torch) is part of the message
     r1 = fn(*args)
     for i, (a, b) in enumerate(zip(args, before)):
         if not _same(a, b):
-            ctx.fail('mutates-input:' + name, f'{name} modified its argument #{i} in place', dict(op=name, argument=i, args=[_desc(x) for x in before]))
+            ctx.fail('mutates-input:' + key, f'{name} modified its argument #{i} in place', dict(op=name, argument=i, args=descs))
             return r1
     r2 = fn(*args)
     if not _same(np.asarray(r1) if not isinstance(r1, tuple) else tuple(np.asarray(x) for x in r1),
                  np.asarray(r2) if not isinstance(r2, tuple) else tuple(np.asarray(x) for x in r2)):
-        ctx.fail('not-repeatable:' + name, f'{name} returned different results for two identical calls on the same objects', dict(op=name, args=[_desc(x) for x in before]))
+        ctx.fail('not-repeatable:' + key, f'{name} returned different results for two identical calls on the same objects', dict(op=name, args=descs))
     return r1
 
 
@@ -591,6 +602,20 @@ def probe_hardening(ctx, rng):
             rho = rand_state(rng, din, 'full'); sig = rand_state(rng, din, 'low')
             C = checked(ctx, 'kraus_op_to_choi_op', ch.kraus_op_to_choi_op, K)
             S = checked(ctx, 'kraus_op_to_super_op', ch.kraus_op_to_super_op, K)
+            # memory layouts: LAPACK-style routines overwrite Fortran-ordered input only (seeded C12-m6), so every matrix argument is
+            # also passed Fortran-ordered (owning its data) and as the transposed view of a C-ordered array (same values, has a base)
+            for lay, conv in LAYOUTS:
+                for nm, fn, args in (('kraus_op_to_choi_op', ch.kraus_op_to_choi_op, (K,)), ('kraus_op_to_super_op', ch.kraus_op_to_super_op, (K,)),
+                                     ('choi_op_to_kraus_op', ch.choi_op_to_kraus_op, (C, din)), ('super_op_to_kraus_op', ch.super_op_to_kraus_op, (S,)),
+                                     ('choi_op_to_super_op', ch.choi_op_to_super_op, (C, din)), ('super_op_to_choi_op', ch.super_op_to_choi_op, (S,)),
+                                     ('apply_kraus_op', ch.apply_kraus_op, (K, rho)), ('apply_choi_op', ch.apply_choi_op, (C, rho)),
+                                     ('apply_super_op', ch.apply_super_op, (S, rho))):
+                    a2 = tuple(conv(a) if isinstance(a, np.ndarray) else a for a in args)
+                    r_ref = fn(*[a.copy() if isinstance(a, np.ndarray) else a for a in args])
+                    r_lay = checked(ctx, f'{nm}[{lay}]', fn, *a2)
+                    if nm not in ('choi_op_to_kraus_op', 'super_op_to_kraus_op') and maxdiff(r_ref, r_lay) > TOL:      # a Kraus set is unique only up to a unitary mixing
+                        ctx.fail('layout-dependent:' + nm, f'{nm} gives a different result for a {lay} argument', dict(op=nm, layout=lay, din=din, dout=dout, seed=seed, args=[_desc(x) for x in a2]))
+                    ctx.count('layout-' + lay)
             checked(ctx, 'kraus_op_to_choi_op[torch]', ch.kraus_op_to_choi_op, torch.tensor(K))
             checked(ctx, 'choi_op_to_kraus_op', ch.choi_op_to_kraus_op, C, din)
             checked(ctx, 'super_op_to_kraus_op', ch.super_op_to_kraus_op, S)
@@ -698,5 +723,22 @@ def search(ctx, hints):
                     if not np.array_equal(got, want):
                         ctx.fail('channel-equivalence:' + nm, f'{nm} != sum K rho K^dag on integer data ({din}->{dout}, {n} terms)',
                                  dict(op=nm, K=t[5], rho=gl(rho), din=din, dout=dout))
+            if t[1] == 'c2k':
+                # the interception of the eigen-decomposition did not give the modelled answer: replay on the real code, all memory layouts
+                din, dout = int(t[2]), int(t[3]); m = din * dout
+                A = np.array([complex(*map(int, e.split(','))) for e in t[5].split(';')]).reshape(m, m)
+                C = A @ A.conj().T
+                rng = np.random.default_rng(0)
+                rho = rg(rng, (din, din), 3, True)
+                want = ch.apply_choi_op(C.copy(), rho)
+                for lay, conv in (('C-order', np.ascontiguousarray),) + LAYOUTS:
+                    Cx = conv(C.copy()); keep = Cx.copy()
+                    K = ch.choi_op_to_kraus_op(Cx, din)
+                    info = dict(op='choi_op_to_kraus_op', layout=lay, dim_in=din, dim_out=dout, choi=gl(C))
+                    if not np.array_equal(Cx, keep):
+                        ctx.fail('mutates-input:choi_op_to_kraus_op', f'choi_op_to_kraus_op modified its {lay} Choi argument in place', info); break
+                    got = ch.apply_kraus_op(K, rho)
+                    if maxdiff(got, want) > 1e-9 * max(1.0, float(np.abs(want).max())):
+                        ctx.fail('channel-equivalence:choi_to_kraus', f'the Kraus set returned for a {lay} Choi operator is not the same channel', info); break
         except Exception:
             continue
